@@ -169,7 +169,59 @@ pub fn check_fix_text(text: &str) -> Result<FixInfo, Violation> {
 /// on `b` deliberately captures the dependence of X's value on `b`, so `forall b # X` and
 /// `forall b' # X` differ.  Such quantifiers are left alone.
 /// scope entries: (original name, new name, is_fixed_point_binder)
-pub fn alpha_rename(a: &RAst, scope: &mut Vec<(String, String, bool)>, counter: &mut usize) -> RAst {
+/// Names bound by a quantifier whose body mentions (free) a name whose innermost enclosing binder
+/// is a fixed point: such a quantifier captures the dependence of that fixed point's current value
+/// on its variable. All binders on the same NAME denote the same variable of the diagram, so once a
+/// name is pinned no quantifier on it may be renamed anywhere in the formula (renaming an outer
+/// `forall a` while an inner `exists a # X` stays would cut the capture:
+/// `lfp a # forall a, X # lfp X # (a & a) => exists a # X`).
+fn pinned_names(a: &RAst, scope: &mut Vec<(String, bool)>, out: &mut std::collections::BTreeSet<String>) {
+    match a {
+        RAst::Quant(_, ns, b) => {
+            let mut body_fv = b.free_vars();
+            for n in ns {
+                body_fv.remove(n);
+            }
+            if body_fv.iter().any(|v| scope.iter().rev().find(|(o, _)| o == v).map(|e| e.1).unwrap_or(false)) {
+                for n in ns {
+                    out.insert(n.clone());
+                }
+            }
+            let mark = scope.len();
+            for n in ns {
+                scope.push((n.clone(), false));
+            }
+            pinned_names(b, scope, out);
+            scope.truncate(mark);
+        }
+        RAst::Fix(n, _, b) => {
+            scope.push((n.clone(), true));
+            pinned_names(b, scope, out);
+            scope.pop();
+        }
+        other => {
+            for c in other.children() {
+                pinned_names(c, scope, out);
+            }
+        }
+    }
+}
+
+thread_local! {
+    static PINNED: std::cell::RefCell<std::collections::BTreeSet<String>> = const { std::cell::RefCell::new(std::collections::BTreeSet::new()) };
+}
+
+/// alpha-rename a whole formula (computes the pinned names first)
+pub fn alpha_rename_formula(a: &RAst, counter: &mut usize) -> RAst {
+    let mut pinned = std::collections::BTreeSet::new();
+    pinned_names(a, &mut Vec::new(), &mut pinned);
+    PINNED.with(|p| *p.borrow_mut() = pinned);
+    let r = alpha_rename(a, &mut Vec::new(), counter);
+    PINNED.with(|p| p.borrow_mut().clear());
+    r
+}
+
+fn alpha_rename(a: &RAst, scope: &mut Vec<(String, String, bool)>, counter: &mut usize) -> RAst {
     let lookup = |n: &String, scope: &Vec<(String, String, bool)>| -> String {
         scope.iter().rev().find(|(o, _, _)| o == n).map(|(_, r, _)| r.clone()).unwrap_or_else(|| n.clone())
     };
@@ -193,7 +245,8 @@ pub fn alpha_rename(a: &RAst, scope: &mut Vec<(String, String, bool)>, counter: 
                     continue;
                 }
                 let shadows = scope[..mark].iter().any(|(o, _, _)| o == n);
-                let r = if shadows && !captures_fix_value {
+                let pinned = PINNED.with(|p| p.borrow().contains(n));
+                let r = if shadows && !captures_fix_value && !pinned {
                     *counter += 1;
                     format!("{}_r{}", n.replace('\'', "p"), counter)
                 } else {
@@ -245,7 +298,7 @@ pub fn check_scoping(text: &str) -> Check {
     let parsed = rparse::parse_text(text.as_bytes()).map_err(|e| v(format!("HARNESS: reference parser: {}", e)))?;
     // free names that collide with a binder are renamed too? no: only shadowing binders are.
     let mut counter = 0usize;
-    let renamed = alpha_rename(&parsed.ast, &mut Vec::new(), &mut counter);
+    let renamed = alpha_rename_formula(&parsed.ast, &mut counter);
     if counter == 0 {
         // nothing could be renamed soundly
         return Ok(());
